@@ -117,7 +117,7 @@ coords(const struct zc_src *s, int64_t t, char *buf, size_t bsz)
 static const char*
 srcclass(const struct zc_src *s, char *buf, size_t bsz)
 {
-	snprintf(buf, bsz, "%s v%d", s->sys ? "installed" : !strncmp(s->name, "spl:", 4) ? "synthetic-short-spell" : "synthetic", s->m.version);
+	snprintf(buf, bsz, "%s v%d", s->sys ? "installed" : !strncmp(s->name, "spl:", 4) ? "synthetic-short-spell" : !strncmp(s->name, "odd:", 4) ? "synthetic-odd-offsets" : "synthetic", s->m.version);
 	return buf;
 }
 
@@ -159,17 +159,48 @@ flavour(const struct zc_src *s, int64_t t, int64_t gotoff)
 	return "offset-not-in-file";
 }
 
+/* UTC calendar text of instant T by plain arithmetic (the C library's gmtime applies the leap seconds of whatever
+ * TZ file is loaded, and the self-check loads the file under test) */
 static void
 iso(int64_t t, char *buf, size_t bsz)
 {
-	/* text for the command line only (the C library's UTC calendar) */
-	time_t tt = (time_t)t;
-	struct tm tm;
-	if (gmtime_r(&tt, &tm) == NULL || tm.tm_year + 1900 < 1601 || tm.tm_year + 1900 > 4095) {
+	static const int ml[12] = {31, 28, 31, 30, 31, 30, 31, 31, 30, 31, 30, 31};
+	int64_t days = t / 86400, sod = t % 86400;
+	int y = 1970, m;
+
+	if (sod < 0) {
+		sod += 86400;
+		days--;
+	}
+	if (days < -135000 || days > 776000) {
+		/* outside 1601..4095 */
 		snprintf(buf, bsz, "@%lld", (long long)t);
 		return;
 	}
-	snprintf(buf, bsz, "%04d-%02d-%02dT%02d:%02d:%02d", tm.tm_year + 1900, tm.tm_mon + 1, tm.tm_mday, tm.tm_hour, tm.tm_min, tm.tm_sec);
+	while (days < 0) {
+		y--;
+		days += 365 + ((y % 4 == 0 && y % 100 != 0) || y % 400 == 0);
+	}
+	for (;;) {
+		int yl = 365 + ((y % 4 == 0 && y % 100 != 0) || y % 400 == 0);
+		if (days < yl) {
+			break;
+		}
+		days -= yl;
+		y++;
+	}
+	for (m = 0; m < 12; m++) {
+		int l = ml[m] + (m == 1 && ((y % 4 == 0 && y % 100 != 0) || y % 400 == 0));
+		if (days < l) {
+			break;
+		}
+		days -= l;
+	}
+	if (y < 1601 || y > 4095) {
+		snprintf(buf, bsz, "@%lld", (long long)t);
+		return;
+	}
+	snprintf(buf, bsz, "%04d-%02d-%02dT%02d:%02d:%02d", y, m + 1, (int)days + 1, (int)(sod / 3600), (int)(sod / 60 % 60), (int)(sod % 60));
 }
 
 static void
@@ -379,6 +410,61 @@ do_R(const struct zc_src *s, int64_t t)
 	return bad;
 }
 
+/* E: `-f %s' under --zone names the instant itself.  The value goes the way dconv sends it: parsed from its UTC text,
+ * dtz_enrichz() with the zone, dt_strfdt("%s").  (The +HH:MM text of %Z is documented to have quarter-hour resolution and is not
+ * judged.) */
+static int
+do_E(const struct zc_src *s, int64_t t)
+{
+	int32_t off;
+	char ts[64], buf[64] = "", key[256], co[128], sc[64], cas[400], cmd[512];
+	struct dt_dt_s d;
+	zif_t z;
+	long long got;
+	char *ep = NULL;
+	EX_CTR(c_trans, "transitions");
+	EX_CTR(c_eval, "evaluations");
+	EX_CTR(c_skipy, "skipped:%s under --zone for an instant outside the years the date parser covers");
+
+	if (!rz_offset(&s->m, t, &off)) {
+		return 0;
+	}
+	iso(t, ts, sizeof(ts));
+	if (ts[0] == '@') {
+		++*c_skipy;
+		return 0;
+	}
+	d = dt_strpdt(ts, NULL, NULL);
+	if (dt_unk_p(d) || (z = zc_fresh(s)) == NULL) {
+		return 0;
+	}
+	d = dtz_enrichz(d, z);
+	dt_strfdt(buf, sizeof(buf), "%s", d);
+	zif_close(z);
+	++*c_trans;
+	++*c_eval;
+	got = strtoll(buf, &ep, 10);
+	ex_outcome(ex_hash_mix((uint64_t)(got - t), 'E'));
+	if (ep == buf || *ep || got != (long long)t) {
+		coords(s, t, co, sizeof(co));
+		snprintf(key, sizeof(key), "epoch-under-zone differs offset-on-quarter-hour-grid=%s %s %s", off % 900 ? "no" : "yes", srcclass(s, sc, sizeof(sc)), co);
+		snprintf(cas, sizeof(cas), "%s E %lld", s->name, (long long)t);
+		if (s->sys) {
+			snprintf(cmd, sizeof(cmd), "dconv --zone %s -f %%s %s", s->name + 4, ts);
+		}
+		ex_viol(key, (double)t, cas, s->sys ? cmd : NULL, "%s: %s converted into the zone (offset %d s) and printed with %%s gives '%s'; the instant is %lld",
+			s->name, ts, off, buf, (long long)t);
+		if (g_replay) {
+			printf("  FAIL [%s] %%s of %s under the zone (offset %d): '%s', instant %lld\n", key, ts, off, buf, (long long)t);
+		}
+		return 1;
+	}
+	if (g_replay) {
+		printf("  ok %%s of %s under the zone (offset %d) = %s\n", ts, off, buf);
+	}
+	return 0;
+}
+
 /* the valid instants of local time L: fills V, returns their number; -1 when a
  * candidate lies before the first listed transition (nothing can be said) */
 static int
@@ -546,6 +632,7 @@ run_src(struct zc_src *s)
 		}
 		do_L(s, inst[k]);
 		do_R(s, inst[k]);
+		do_E(s, inst[k]);
 	}
 	for (size_t k = 0; k < nl && !ex_expired(); k++) {
 		do_U(s, locl[k]);
@@ -873,6 +960,7 @@ main(int argc, char *argv[])
 		case 'L': bad = do_L(&s, t); break;
 		case 'R': bad = do_R(&s, t); break;
 		case 'U': bad = do_U(&s, t); break;
+		case 'E': bad = do_E(&s, t); break;
 		default: return ex_replay_result(1, "bad operation '%c'", op);
 		}
 		return ex_replay_result(bad, "%s %c %lld", name, op, t);
@@ -880,10 +968,13 @@ main(int argc, char *argv[])
 
 	zc_catalogue(1, 1, ex.thorough ? 5 : 4, ex.thorough);
 	zc_catalogue_spells(ex.thorough ? 5 : 4, ex.thorough ? 3 : 2);
+	zc_catalogue_odd(ex.thorough ? 4 : 3);
 	ex_meta("rule", "every regular TZif file below " ZC_ZONEINFO " (%zu found; %zu other regular files ignored; symbolic links name files visited anyway) "
 		"and %zu synthetic files generated from the model (versions 1-3; 0..4 (thorough: 0..5) transitions at 4 instant layouts with types from the offset alphabet "
 		"{-18000,0,+19800} in every arrangement, the 32-bit block of version 2/3 files being a decoy; 254/255/256/257/300/600 (thorough: also 511/512/513/1000) transitions cycling through the 3 types; SHORT SPELLS: 2..4 (thorough 5) transitions "
-		"3600/1800 (thorough also 7200) s apart with types from {-10800,-3600,0,+12600} in every arrangement, so that an offset is in force for less time than the jumps around it). "
+		"3600/1800 (thorough also 7200) s apart with types from {-10800,-3600,0,+12600} in every arrangement, so that an offset is in force for less time than the jumps around it; ODD OFFSETS: 2..3 (thorough 4) transitions with types from {+1172,-2670,+20,0} s). "
+		"Additionally E: every instant parsed from its UTC text, dtz_enrichz() with the zone, printed with %%s must give the instant (the +HH:MM of %%Z has a documented "
+		"quarter-hour resolution and is not judged). "
 		"Per file: every listed transition -1/0/+1 s (thorough: also +-3600 s, +-86400 s and the middle of every range), last+10^9, 0, +-1, +-2^31 seams; each on a fresh handle (zif_open per call): zif_local_time(t) = t + offset in force; "
 		"zif_find_zrng(t) = adjacent table entries, offset in force, neighbouring offsets as dzone derives them; zif_utc_time(l) for both local images of every "
 		"transition -1/0/+1 s must be a member of {u: u + offset(u) = l}. Readings: instants before the first listed transition are outside (skipped); a local time "
